@@ -277,6 +277,20 @@ func C01(r *h.Run) {
 			}
 		}
 	}
+	// the same exchanges with both bodies re-chunked into 1- and 3-byte reads (a proxy,
+	// a slow link): envelope prefixes and payloads arrive in pieces
+	fi := 0
+	for _, proto := range protos {
+		for _, kind := range []string{"unary", "client", "server"} {
+			for _, comp := range []string{"identity", "gzip"} {
+				fi++
+				via := []e2eTransport{viaLocalFrag1, viaLocalFrag3}[fi%2]
+				reqMsgs := [][]byte{seqPayload(rng, 3), {}, seqPayload(rng, 40), seqPayload(rng, 1)}
+				resMsgs := [][]byte{seqPayload(rng, 2), seqPayload(rng, 33), {}, seqPayload(rng, 5)}
+				runCfg(e2eCfg{Proto: proto, Codec: []string{"toy", "proto"}[fi%2], Compression: comp, Kind: kind, SendCompression: comp != "identity", MinBytes: 0, Via: via}, reqMsgs, resMsgs, "e2e_fragmented")
+			}
+		}
+	}
 	// real servers (sockets): HTTP/1.1 (no bidi) and HTTP/2
 	nReal := r.N(18, 120)
 	for k := 0; k < nReal; k++ {
